@@ -15,6 +15,8 @@
 //   key x        hex of px.ToKey(x)                                                     → "x<hex>" | "reported INVALID_HASH_KEY"
 //   get H k      H.Get(k)                                                               → "some <value>" | "none"
 //   unique xs    Array.Unique                                                           → "(a v*)"
+//   @veq / @veq3 / @vkey / @vget / @vunique   implementation only: the same five ops over the value kinds that have no model
+//                counterpart: (ts NANOS) Timespan, (tm SECS NANOS) Timestamp, (uri xHEX) URI, (ver xHEX) SemVer
 //   @teq s t / @teq3 s t u   implementation only: the same laws on types given as *type expressions* (hex strings parsed by
 //                c.ParseType), for the type kinds that have no model counterpart (String[n], Struct, Hash, Pattern, Callable …)
 // The property predicate is evaluated directly on the implementation for every op (see `exec`).
@@ -27,6 +29,7 @@ import (
 	"math/rand"
 	"strconv"
 	"strings"
+	"time"
 
 	"verif/harness/core"
 	"verif/harness/sx"
@@ -34,6 +37,7 @@ import (
 	"github.com/lyraproj/issue/issue"
 	"github.com/lyraproj/pcore/px"
 	"github.com/lyraproj/pcore/types"
+	"github.com/lyraproj/semver/semver"
 )
 
 func init() {
@@ -157,6 +161,14 @@ func valOf(e sx.Sexp) px.Value {
 		return m
 	case "e":
 		return types.WrapHashEntry(valOf(a[0]), valOf(a[1]))
+	case "ts":
+		return types.WrapTimespan(time.Duration(a[0].MustInt()))
+	case "tm":
+		return types.WrapTimestamp(time.Unix(a[0].MustInt(), a[1].MustInt()).UTC())
+	case "uri":
+		return types.WrapURI2(a[0].MustStr())
+	case "ver":
+		return types.WrapSemVer(semver.MustParseVersion(a[0].MustStr()))
 	case "sens":
 		return types.WrapSensitive(valOf(a[0]))
 	case "t":
@@ -264,6 +276,14 @@ func valStr(v px.Value) string {
 		return "(e " + valStr(v.Key()) + " " + valStr(v.Value()) + ")"
 	case *types.Sensitive:
 		return "(sens " + valStr(v.Unwrap()) + ")"
+	case types.Timespan:
+		return fmt.Sprintf("(ts %d)", int64(v.Duration()))
+	case *types.Timestamp:
+		return fmt.Sprintf("(tm %d %d)", v.Time().Unix(), v.Time().Nanosecond())
+	case *types.UriValue:
+		return "(uri " + sx.Str(v.URL().String()).Atom + ")"
+	case *types.SemVer:
+		return "(ver " + sx.Str(v.Version().String()).Atom + ")"
 	case px.Type:
 		return "(t " + typeStr(v) + ")"
 	}
@@ -598,6 +618,10 @@ func pairFail(out, law, detail string, ex, ey sx.Sexp, x, y px.Value) core.Resul
 // ---- ops ---------------------------------------------------------------------------------------------------
 
 func exec(c px.Context, op string, args []sx.Sexp) core.Result {
+	switch op { // the implementation-only twins run the very same predicates
+	case "veq", "veq3", "vkey", "vget", "vunique":
+		op = op[1:]
+	}
 	switch op {
 	case "eq":
 		ex, ey := args[0], args[1]
@@ -1685,6 +1709,30 @@ func gen(g *core.G) {
 	for i := 0; i < 4000*g.Scale; i++ {
 		a, b, cc := typeExprs[r.Intn(len(typeExprs))], typeExprs[r.Intn(len(typeExprs))], typeExprs[r.Intn(len(typeExprs))]
 		g.Emit("@teq3 " + sx.Str(a).Atom + " " + sx.Str(b).Atom + " " + sx.Str(cc).Atom)
+	}
+	// implementation-only: the value kinds without a model counterpart, crossed with each other and with core values,
+	// bare, as array elements and as hash keys
+	extra := []sx.Sexp{
+		mk("(ts 0)"), mk("(ts 1)"), mk("(ts 1000000000)"), mk("(ts 1500000000)"), mk("(ts -1000000000)"), mk("(ts 86400000000000)"),
+		mk("(tm 0 0)"), mk("(tm 0 1)"), mk("(tm 1 0)"), mk("(tm 1 500000000)"), mk("(tm -1 0)"), mk("(tm 1500000000 999999999)"),
+		sx.T("uri", sx.Str("http://example.com/a")), sx.T("uri", sx.Str("http://example.com/b")), sx.T("uri", sx.Str("file:///tmp/x")), sx.T("uri", sx.Str("http://example.com/a?q=1")),
+		sx.T("ver", sx.Str("1.0.0")), sx.T("ver", sx.Str("1.0.1")), sx.T("ver", sx.Str("1.0.0-rc1")), sx.T("ver", sx.Str("1.0.0+b1")), sx.T("ver", sx.Str("1.0.0+b2")),
+		iv(0), iv(1), fv(1), sv("1.0.0"), sv("http://example.com/a"), av(), hv(),
+	}
+	for _, x := range extra {
+		g.Emit("@vkey " + x.String())
+		for _, y := range extra {
+			g.Emit("@veq " + x.String() + " " + y.String())
+			g.Emit("@veq " + av(x, iv(1)).String() + " " + av(y, iv(1)).String())
+			g.Emit("@vunique " + av(x, y, x).String())
+			g.Emit("@vget " + hv(x, iv(1)).String() + " " + y.String())
+			if s, ok := keyImage(x); ok {
+				g.Emit("@veq " + av(s).String() + " " + av(y).String())
+			}
+		}
+	}
+	for i := 0; i < 3000*g.Scale; i++ {
+		g.Emit("@veq3 " + extra[r.Intn(len(extra))].String() + " " + extra[r.Intn(len(extra))].String() + " " + extra[r.Intn(len(extra))].String())
 	}
 	// length-field boundaries with their regrouped / forged counterparts
 	boundaryShapes(g)
